@@ -9,3 +9,6 @@ import Gittuf.Props.C02b
 #print axioms Gittuf.C02_verify_delegations
 #print axioms Gittuf.World.relLoop_chain_gen
 #print axioms Gittuf.World.C02_relative_chain
+#print axioms Gittuf.World.chainStates_exact
+#print axioms Gittuf.World.loadState_chain
+#print axioms Gittuf.World.initialPolicy_records
